@@ -61,6 +61,8 @@ GRAPHS = {
     "chain": {"types": ["src", "m1", "sa", "sb", "mb"],
               "plugins": {"P_src": (["src"], []), "P_m1": (["m1"], ["src"]), "P_s": (["sa", "sb"], ["m1"]),
                           "P_mb": (["mb"], ["sb"])}},
+    "join": {"types": ["src", "sa", "sb", "jn"],
+             "plugins": {"P_src": (["src"], []), "P_s": (["sa", "sb"], ["src"]), "P_jn": (["jn"], ["sa", "sb"])}},
     "diamond": {"types": ["src", "m1", "m2", "mg"],
                 "plugins": {"P_src": (["src"], []), "P_m1": (["m1"], ["src"]), "P_m2": (["m2"], ["src"]),
                             "P_mg": (["mg"], ["m1", "m2"])}},
@@ -77,6 +79,22 @@ def build(graph, sw, obj=True, L=None):
         P.append(ctx.P_map("m1", "src", obj, save_when=immutabledict(m1=sw["m1"])))
         P.append(ctx.P_split2(["sa", "sb"], "m1", obj, 0, save_when=immutabledict(sa=sw["sa"], sb=sw["sb"])))
         P.append(ctx.P_map("mb", "sb", obj, save_when=immutabledict(mb=sw["mb"])))
+    elif graph == "join":
+        import strax
+
+        P.append(ctx.P_source("src", "ksrc", L, obj, save_when=immutabledict(src=sw["src"])))
+        P.append(ctx.P_split2(["sa", "sb"], "src", obj, 0, save_when=immutabledict(sa=sw["sa"], sb=sw["sb"])))
+
+        class Join(strax.Plugin):
+            provides = ("jn",); depends_on = ("sa", "sb"); data_kind = "k_jn"; dtype = ctx.dt(ctx.ROW, obj)
+            save_when = immutabledict(jn=sw["jn"])
+
+            def compute(self, k_sa, k_sb):
+                r = ctx.new_arr(ctx.ROW, len(k_sb), obj)
+                for q in range(len(k_sb)):
+                    r["time"][q], r["endtime"][q], r["id"][q] = k_sb["time"][q], k_sb["endtime"][q], k_sb["id"][q]
+                return r
+        P.append(Join)
     else:
         P.append(ctx.P_source("src", "ksrc", L, obj, save_when=immutabledict(src=sw["src"])))
         P.append(ctx.P_map("m1", "src", obj, kind="kk", save_when=immutabledict(m1=sw["m1"])))
@@ -119,14 +137,20 @@ def sym_components(graph, target, modifier="none", forbid=None, readonly=False, 
     stored = {d: fresh_bool(f"stored_{d}") for d in types}
     sw = {d: fresh_int(f"sw_{d}", 0, 3) for d in types}
     insave = {d: fresh_bool(f"save_{d}") for d in types}
+    if forbid == "sym":
+        forb = {d: fresh_bool(f"forbid_{d}") for d in types}
+    else:
+        forb = {d: (d in (forbid or ())) for d in types}
     P = build(graph, sw)
     fe = flag_frontend(stored, readonly=readonly, exclude=tuple(exclude or ()))
     opts = {}
     if modifier == "fuzzy":
-        opts["fuzzy_for"] = ("m1",)
+        opts["fuzzy_for"] = (types[1],)
     if modifier == "incomplete":
         opts["allow_incomplete"] = True
-    if forbid:
+    if forbid == "sym":
+        opts["forbid_creation_of"] = SymSet(forb)
+    elif forbid:
         opts["forbid_creation_of"] = tuple(forbid)
     st = ctx.make_context(P, storage=[fe], **opts)
     kw = {}
@@ -162,8 +186,8 @@ def sym_components(graph, target, modifier="none", forbid=None, readonly=False, 
     def should(d):
         return sor(sw[d] == ALWAYS, sand(sw[d] == TARGET, d in targets), sand(sw[d] == EXPLICIT, insave[d]))
 
-    err_dna = sor(*[sand(computes[d], sor(sand(modifier == "time_range", sw[d] > EXPLICIT), d in (forbid or ()),
-                                          "*" in (forbid or ()))) for d in types])
+    err_dna = sor(*[sand(computes[d], sor(sand(modifier == "time_range", sw[d] > EXPLICIT), forb[d],
+                                          forbid != "sym" and "*" in (forbid or ()))) for d in types])
     # a NEVER-save type listed in save= is an explicit error (when its saving is considered at all)
     considered = {d: sor(computes[d], *[computes[o] for o in outs[prov[d]] if o != d]) for d in types}
     err_val = sor(*[sand(computes[d], sw[d] == NEVER, insave[d]) for d in types])
@@ -273,6 +297,8 @@ def _grid(tier):
             for mod in ("none", "time_range", "selection", "columns", "fuzzy", "incomplete"):
                 g.append(dict(graph=graph, target=t, modifier=mod))
         g.append(dict(graph=graph, target=G["types"][-1], forbid=[G["types"][1]]))
+        g.append(dict(graph=graph, target=G["types"][-1], forbid="sym"))
+        g.append(dict(graph=graph, target=G["types"][-2], forbid="sym", modifier="time_range"))
         g.append(dict(graph=graph, target=G["types"][-1], forbid=["*"]))
         g.append(dict(graph=graph, target=G["types"][-1], readonly=True))
         g.append(dict(graph=graph, target=G["types"][-1], exclude=[G["types"][1]]))
